@@ -358,3 +358,119 @@ def timing_is_off():
     tree = X.module_ast("compiler.py")
     vals = [n.value for n in tree.body if isinstance(n, ast.Assign) and any(isinstance(t, ast.Name) and t.id == "_DO_TIMING" for t in n.targets)]
     return len(vals) == 1 and isinstance(vals[0], ast.Constant) and vals[0].value is False
+
+
+# ------------------------------------------------------------------------------------------- compile_code: never raises
+# The whole of compile_code for EVERY source text (a str) and every options object / None: the directive scan (both loops,
+# cut by invariants) lets no exception escape, leaves `options` an options object with boolean fields, never touches the
+# caller's object, and the value returned is what Compiler(options).compile(src) returns.
+def _cc_fields():
+    return real_fields()
+
+
+def cc_inv_options_are_bools(k, options):
+    return (isinstance(options.original_code_as_comment, bool) and isinstance(options.generated_comments, bool) and isinstance(options.inline_functions, bool)
+            and isinstance(options.remove_labels, bool) and isinstance(options.append_version, bool) and isinstance(options.compact, bool)
+            and isinstance(options.tail_call_optimization, bool) and isinstance(options.use_push_pop_functions, bool))
+
+
+def cc_post_returns_the_compiler_result(src, options, result):
+    return result[0] == "compile-result"
+
+
+def cc_post_callers_options_untouched(src, options, result):
+    return result[1]
+
+
+def compile_code_contract():
+    from pyvc.loops import LoopSpec
+    from pyvc.state import fresh
+
+    tree = X.module_ast("compiler.py")
+    f = X.find_function(tree, "compile_code")
+    fields = real_fields()
+    w, classes = tag_world()
+    BOOL = z3.BoolSort()
+
+    def mk_opts(st, pname):
+        o = st.new_obj("CompileOptions", {n: VBool(fresh("o_" + n, BOOL)) for n in fields})
+        st.ghost["caller_options"] = (o, {n: st.store[o.oid][n] for n in fields})
+        return o
+
+    def h_copy(eng, st, args, kw, origin):
+        (o,) = args
+        if not isinstance(o, VObj):
+            raise Unsupported("copy.copy of something else than the options object")
+        eng.use("copy.copy(obj): a new object with the same field values")
+        return [(st, st.new_obj(st.store[o.oid]["__class__"], {k: v for k, v in st.store[o.oid].items() if k != "__class__"}))]
+
+    def h_compiler(eng, st, args, kw, origin):
+        (o,) = args
+        st.ghost["compiler_options"] = o
+        return [(st, VOpq("compiler", fresh("compiler", z3.IntSort())))]
+
+    def compiler_attr(eng, st, obj, name, origin):
+        if name == "compile":
+            def run(e, s, a, k, o):
+                e.use("callee contract compiler.Compiler.compile: returns a result dict, no exception escapes (proved separately, C10)")
+                return [(s, VC("compile-result"))]
+
+            return [(st, VFun("builtin", fn=run, name="Compiler.compile"))]
+        raise Unsupported(f"Compiler.{name}")
+
+    w = dict(w)
+    w["module:copy"] = VMod("copy", {"copy": VFun("builtin", fn=h_copy, name="copy.copy")})
+    w["copy"] = w["module:copy"]
+    w["Compiler"] = VFun("builtin", fn=h_compiler, name="Compiler")
+    w["__opqattr__:compiler"] = compiler_attr
+    w["set_output_mode"] = VFun("builtin", fn=lambda e, s, a, k, o: [(s, VC(None))], name="set_output_mode")
+    w["OutputMode"] = VMod("OutputMode", {"VERBOSE": VC(0), "COMPACT": VC(1), "NUMERIC": VC(2)})
+
+    def havoc_opts(eng, st):
+        # the loop bodies write the options object only through setattr on its declared fields
+        o = eng.lookup(st, "options")
+        for n in fields:
+            st.store[o.oid] = dict(st.store[o.oid])
+            st.store[o.oid][n] = VBool(fresh("h_" + n, BOOL))
+
+    fn = "compiler.compile_code"
+    specs = {f"{fn}@for[line]": LoopSpec([cc_inv_options_are_bools], ["options"], havoc=havoc_opts, name="lines"),
+             f"{fn}@for[tag]": LoopSpec([cc_inv_options_are_bools], ["options"], havoc=havoc_opts, name="tags")}
+
+    def view(eng, st, v):
+        o, before = st.ghost["caller_options"]
+        same = all(st.store[o.oid][n] is before[n] for n in fields) if o is not None else True
+        return VTuple([v, VC(bool(same))])
+
+    def mk_none(st, pname):
+        st.ghost["caller_options"] = (None, {})
+        return VC(None)
+
+    def search_cc(clause):
+        import copy as _copy
+
+        from stationeers_pytrapic.compiler import CompileOptions, compile_code
+
+        heads = ["# pytrapic: compact", "#pytrapic:no-compact,remove_labels", "  # pytrapic: __class__", "# pytrapic:", "# pytrapic: ,,", "#", "# pytrapic: no_", "# pytrapic: no-no-compact",
+                 "x = 1  # pytrapic: compact", "# pytrapic: compact # pytrapic: remove-labels", "# pytrapic: __dataclass_fields__, __init__, compact", "# pytrapic: no___class__"]
+        for h in heads:
+            for opts in (None, CompileOptions(), CompileOptions(compact=True, append_version=False)):
+                before = _copy.deepcopy(opts)
+                try:
+                    r = compile_code(h + "\nx = 1\n", opts)
+                except BaseException as e:
+                    return {"source": h + "\nx = 1\n", "options": repr(opts)}, f"compile_code raised {type(e).__name__}: {e}"
+                if not isinstance(r, dict):
+                    return {"source": h + "\nx = 1\n", "options": repr(opts)}, f"returned {type(r).__name__}"
+                if opts != before:
+                    return {"source": h + "\nx = 1\n", "options": repr(before)}, f"the caller's options object was changed to {opts!r}"
+        return None
+
+    c = Contract(name="compiler.compile_code", fun=lambda eng: X.vfun(f, fn),
+                 params=[("src", [KStr()]), ("options", [KCustom("options object (any field values)", mk_opts, lambda m, v: None), KCustom("None", mk_none, lambda m, v: None)])],
+                 post={"returns_what_the_compiler_returns": cc_post_returns_the_compiler_result, "callers_options_object_is_not_written": cc_post_callers_options_untouched},
+                 raises={}, world=w, classes=classes, loop_specs=specs, result_view=view, search=search_cc, timeout=60.0,
+                 describe=dict(X.describe(f, "compiler.py"), track="U: both loops of the directive scan cut by invariants (options stays an options object with boolean fields); exception flow for every source text",
+                               extraction_drops=["type annotations", "src given as a dict of modules (the scan reads src[''] only; a mapping without '' is outside the property's quantifier)", "options given as a dict"]))
+    c.feas_timeout_ms = 300
+    return c
